@@ -1,6 +1,6 @@
 (** Property C09 — approvals count only for the exact change named, once per principal.
     Only statements here; proofs are in WorldProofs.v / SigProofs.v. *)
-From GV Require Import Sig SigProofs World WorldProofs.
+From GV Require Import Sig SigProofs World WorldProofs Reviews ReviewsProofs.
 
 (** An authorization is used for the change (ref, from, to) only if it is stored for that change
     AND its signed statement names exactly that reference, prior state and resulting tree. *)
@@ -29,7 +29,44 @@ Theorem C09_counted_once : forall v hg g env S W,
 Proof. intros v hg g env S W H. destruct (verify_sound _ _ _ _ _ _ H) as (_ & H1 & H2 & _). auto. Qed.
 Print Assumptions C09_counted_once.
 
-(** C09_code_review_partial.  Code-review (GitHub app) approvals — app trust flag, app-key
-    signature, approver-to-principal mapping, dismissed approvers — are not modelled yet; they are
-    outside the generated worlds.  Only the attestation state recorded before the entry is used:
-    [verify_entry] reads attestations through [attest_before w i], which filters positions < i. *)
+(** Code-review approvals.  Every approved identity comes from an attestation stored in a trusted
+    app's slot for exactly this change, signed by that app's keys to its threshold, whose signed
+    statement names exactly this reference, prior state and resulting tree. *)
+Theorem C09_review_bound_to_exact_change : forall rs ref from to apps l ident,
+  collect_approvers apps rs ref from to = Some l -> In ident l ->
+  exists a r, In a apps /\ a_trusted a = true /\ find_review rs (a_name a) ref from to = Some r /\
+    statement_matches r ref from to = true /\
+    accepts {| v_principals := key_principals (a_keys a); v_threshold := a_thr a; v_exhaustive := false |} false 0%N (env_of (rv_signers r)) = true /\
+    In ident (rv_approvers r).
+Proof. exact collect_approvers_sound. Qed.
+Print Assumptions C09_review_bound_to_exact_change.
+
+(** A principal credited through approvals is a principal of the rule, was not already credited by a
+    signature, and registered an approved identity under a trusted app ... *)
+Theorem C09_review_credit_justified : forall apps ids approved v used p,
+  In p (review_credit apps ids approved v used) ->
+  In p (map fst (vr_pr v)) /\ ~ In p used /\
+  exists a ident, In a apps /\ a_trusted a = true /\ In (p, a_name a, ident) ids /\ In ident approved.
+Proof. exact review_credit_sound. Qed.
+Print Assumptions C09_review_credit_justified.
+
+(** ... and is credited once. *)
+Theorem C09_review_credit_once : forall apps ids approved v used, NoDup (review_credit apps ids approved v used).
+Proof. exact review_credit_once. Qed.
+Print Assumptions C09_review_credit_once.
+
+(** An accepted entry: some verifier of the branch reaches its threshold with the principals its
+    signatures credit plus the principals its approvals credit. *)
+Theorem C09_accepted_with_reviews : forall apps ids approved signer env vs s,
+  first_satisfied_r apps ids approved vs signer env = Some s ->
+  exists v, In v vs /\
+    (verify (vrec_verifier v) true signer env = VOkSet s \/
+     exists s0, verify (vrec_verifier v) true signer env = VErr EUnmet s0 /\
+                s = s0 ++ review_credit apps ids approved v s0 /\ (vr_thr v <= Z.of_nat (List.length s))%Z).
+Proof. exact first_satisfied_r_sound. Qed.
+Print Assumptions C09_accepted_with_reviews.
+
+(** C09_partial.  An approved identity is matched against the identities a principal registered for
+    ANY trusted app, not only the app that attested it (the implementation does the same); dismissed
+    approvers and approval of tags are not modelled.  Only the attestation state recorded before the
+    entry is used: [verify_entry] reads attestations through [attest_before w i] (positions < i). *)
